@@ -2607,6 +2607,39 @@ static void build_expr(WorkList *list, ASTNode *expr, Environment *env) {
  * PASS 1: BUILD WORK ITEMS (Statement Transpiler)
  * ============================================================================ */
 
+/* Does expression `e` mention the identifier `name`?  Used for `let x = f(x)` where the new x
+ * shadows an outer x: in C the initialiser would see the new, uninitialised variable.
+ * Unknown node kinds answer true (the caller's rewrite is always safe, only more verbose). */
+static bool expr_mentions_identifier(ASTNode *e, const char *name) {
+    if (!e || !name) return false;
+    switch (e->type) {
+        case AST_NUMBER: case AST_FLOAT: case AST_STRING: case AST_BOOL:
+            return false;
+        case AST_IDENTIFIER:
+            return e->as.identifier && strcmp(e->as.identifier, name) == 0;
+        case AST_PREFIX_OP:
+            for (int i = 0; i < e->as.prefix_op.arg_count; i++)
+                if (expr_mentions_identifier(e->as.prefix_op.args[i], name)) return true;
+            return false;
+        case AST_CALL:
+            if (e->as.call.name && strcmp(e->as.call.name, name) == 0) return true;
+            if (expr_mentions_identifier(e->as.call.func_expr, name)) return true;
+            for (int i = 0; i < e->as.call.arg_count; i++)
+                if (expr_mentions_identifier(e->as.call.args[i], name)) return true;
+            return false;
+        case AST_FIELD_ACCESS:
+            return expr_mentions_identifier(e->as.field_access.object, name);
+        case AST_TUPLE_INDEX:
+            return expr_mentions_identifier(e->as.tuple_index.tuple, name);
+        case AST_ARRAY_LITERAL:
+            for (int i = 0; i < e->as.array_literal.element_count; i++)
+                if (expr_mentions_identifier(e->as.array_literal.elements[i], name)) return true;
+            return false;
+        default:
+            return true;
+    }
+}
+
 static void build_stmt(WorkList *list, ScopeStack *scopes, ASTNode *stmt, int indent, Environment *env,
                        FunctionTypeRegistry *fn_registry) {
     if (!stmt) return;
@@ -2973,6 +3006,21 @@ static void build_stmt(WorkList *list, ScopeStack *scopes, ASTNode *stmt, int in
             else {
                 /* Regular types (int, float, string, bool, etc.) */
                 const char *c_type = type_to_c(stmt->as.let.var_type);
+                bool self_ref = stmt->as.let.value &&
+                                stmt->as.let.value->type != AST_ARRAY_LITERAL &&
+                                expr_mentions_identifier(stmt->as.let.value, stmt->as.let.name);
+                if (self_ref) {
+                    /* `let x = f(x)`: x in the initialiser is the OUTER x.  Evaluate it into a
+                     * temporary before the new x is declared (C would bind it to the new one). */
+                    static int shadow_init_counter = 0;
+                    int tmp_id = shadow_init_counter++;
+                    emit_formatted(list, "%s nl_outer_%s_%d = ", c_type, stmt->as.let.name, tmp_id);
+                    build_expr(list, stmt->as.let.value, env);
+                    emit_literal(list, ";\n");
+                    emit_indent_item(list, indent);
+                    emit_formatted(list, "%s %s = nl_outer_%s_%d;\n", c_type, stmt->as.let.name,
+                                   stmt->as.let.name, tmp_id);
+                } else {
                 emit_formatted(list, "%s %s", c_type, stmt->as.let.name);
 
                 if (stmt->as.let.value) {
@@ -2988,6 +3036,7 @@ static void build_stmt(WorkList *list, ScopeStack *scopes, ASTNode *stmt, int in
                     build_expr(list, stmt->as.let.value, env);
                 }
                 emit_literal(list, ";\n");
+                }
             }
             
             /* Register in environment */
